@@ -29,7 +29,7 @@ CLAIMED = {
          "After every accepted establishment / modification / deletion and after every (re)start - including SIGKILL of the agent and a new incarnation against the still populated server - TLC compares the "
          "content of the harness-owned BESS server (pdrLookup, farLookup, appQERLookup, sessionQERLookup) with the image the reference specification computes from the live sessions' current rules "
          "(TablesAreImage: nothing missing, nothing else present), and checks UnknownOrUnassociatedRejected, RejectedWritesNothing and StartClearsLookupModules. "
-         "In addition (GEN) TLC generates every script of 4 (thorough: 5) operations over two sessions of different associations (spec/BessScript.tla, 831 / 6 884 scripts) and the harness replays them into the real agent. "
+         "In addition (GEN) TLC generates every script of 4 (thorough: 5) operations over two sessions of different associations (spec/BessScript.tla, 1 770 / 19 385 scripts) and the harness replays them into the real agent. "
          "Listed known finding F-QER-RELABEL is tolerated through named slack only for sessions whose history triggers it.",
          "Randomised histories inside the generators' envelope (DESIGN A.1); kill points are between script steps and, half of the time, inside a request (the datapath server kills the agent at the K-th command it receives for the request); packet-level Classify=Denote is argued compositionally (field-wise image) rather than sampled. " + TRUST,
          "5 C03"),
